@@ -840,6 +840,7 @@ class ExchangeRate:
                                  % (self.term_currency, self.unit_currency,
                                     other.term_currency, other.unit_currency))
         if isinstance(other, Quantity):
+            self._check_currency_in(other, self.unit_currency)
             unit_term = other.unit.definition * \
                         UnitDefT(((self.term_currency, 1),
                                   (self.unit_currency, -1)))
@@ -853,6 +854,18 @@ class ExchangeRate:
         return NotImplemented
 
     __rmul__ = __mul__
+
+    def _check_currency_in(self, qty: Quantity, currency: Currency) -> None:
+        """Raise QuantityError if `qty` is not given per `currency`."""
+        # For a rate between two currencies a quantity in some other unit
+        # leads to an undefined unit anyway, but the rate between a currency
+        # and itself (as reported by a converter) cancels out.
+        if self._unit_currency is self._term_currency:
+            for elem, exp in qty.unit.normalized_definition:
+                if elem is currency and exp > 0:
+                    return
+            raise QuantityError(f"Can't apply a rate for '{currency}' to "
+                                f"'{qty.unit}'.")
 
     def __truediv__(self, other: ExchangeRate) -> ExchangeRate:
         """self / other
@@ -929,6 +942,7 @@ class ExchangeRate:
                              % (other.unit, self.term_currency,
                                 self.unit_currency))
         if isinstance(other, Quantity):
+            self._check_currency_in(other, self.term_currency)
             unit_term = other.unit.definition * \
                         UnitDefT(((self.unit_currency, 1),
                                   (self.term_currency, -1)))
